@@ -36,6 +36,11 @@ theorem evalBin_shr_i64 (x : Int) (s : Nat) (h : s < 64) : evalBin .shr .i64 x (
     simp only [Ty.bits]; omega
   simp only [evalBin, h1, and_self, if_true, Int.toNat_natCast]
   rfl
+theorem evalBin_mod_u64 (x y : Int) : evalBin .mod .u64 x y = if y = 0 then .err .ub else .ok (x % y) := rfl
+theorem evalBin_shl_u64 (x y : Int) :
+    evalBin .shl .u64 x y = if 0 ≤ y ∧ y < 64 then .ok ((x * (2:Int) ^ y.toNat) % 18446744073709551616) else .err .ub := rfl
+theorem evalBin_shr_u64 (x y : Int) :
+    evalBin .shr .u64 x y = if 0 ≤ y ∧ y < 64 then .ok (x / (2:Int) ^ y.toNat) else .err .ub := rfl
 theorem wrap_u64 (x : Int) : Ty.wrap .u64 x = x % 18446744073709551616 := rfl
 theorem wrap_i64 (x : Int) : Ty.wrap .i64 x = wrapS x := rfl
 
